@@ -102,9 +102,18 @@ class Sim:
             import errno
 
             rf["fired"] = True
-            self.fault("eio")
+            kind = getattr(self, "io_error", "eio") or "eio"
+            self.fault(kind)
             self.log.append((len(self.log), self.actor, "eio", str(path), seen))
-            raise OSError(errno.EIO, "Input/output error (simulated)", str(path))
+            cls, code, text = {
+                "eio": (OSError, errno.EIO, "Input/output error"),
+                "econnreset": (ConnectionResetError, errno.ECONNRESET, "Connection reset by peer"),
+                "econnaborted": (ConnectionAbortedError, errno.ECONNABORTED,
+                                 "Software caused connection abort"),
+                "etimedout": (TimeoutError, errno.ETIMEDOUT, "Connection timed out"),
+                "eintr": (InterruptedError, errno.EINTR, "Interrupted system call"),
+            }[kind]
+            raise cls(code, text + " (simulated)", str(path))
 
     def kill_current(self):
         self.killed.add((self.actor, self.epoch))
